@@ -16,13 +16,13 @@ KIND = {"IDENT": "KIdent", "INT": "KInt", "DURATION": "KDur", "STRING": "KStr", 
         "ANY": "KAny", "ILLEGAL": "KIllegal"}
 
 F10 = "F10-format-not-idempotent-comment-after-route-path"
-F15 = "F15-format-empty-doc-leaves-blank-line"
-F16 = "F16-format-comment-in-empty-service-body"
-F17 = "F17-format-multiline-comment-reindented"
-F18 = "F18-format-percent-in-text-mangled"
-F19 = "F19-parser-panics-on-route-without-path"
-F20 = "F20-format-panics-on-doc-without-handler"
-F21 = "F21-format-deleted-statement-after-import-changes-blank-lines"
+F15 = "C20-empty-doc-leaves-blank-line"
+F16 = "C20-comment-in-empty-service-body"
+F17 = "C20-multiline-comment-loses-indent-per-pass"
+F18 = "C20-percent-in-text-mangled"
+F19 = "C20-parser-panics-on-route-without-path"
+F20 = "C20-format-panics-on-doc-without-handler"
+F21 = "C20-deleted-statement-after-import-changes-blank-lines"
 
 STOP_KINDS = {"(", "AT_DOC", "AT_HANDLER", ";", "}"}
 
@@ -390,7 +390,7 @@ class C20(Property):
         on = {f: self._on(f) for f in (F10, F15, F16, F17, F18, F19, F20, F21)}
         for i in range(n):
             opts = {"percent": on[F18] and rng.random() < 0.3,
-                    "f10": on[F10] and rng.random() < 0.5,
+                    "f10": on[F10] and rng.random() < 0.2,
                     "emptydoc": on[F15],
                     "svc_comment": on[F16],
                     "multi_indent": on[F17],
